@@ -21,6 +21,11 @@
    A fifth element 1 marks a free run: the threads were started together without the scheduler
    (real pre-emption); there is no schedule to replay, and by C20_scenario the model's answer is
    the same for every schedule: the specified solo results.
+   A fifth element 2, followed by (nkeys workers rounds how), marks a run in which the readers' calls
+   were jobs on ONE shared rayon pool (every dataset has nkeys keys); again no schedule to replay.
+   A thread of the model is a reader (a sequence of logical calls), not an operating-system or pool
+   worker thread, and the mode belongs to the call that set it: whatever worker runs (parts of) other
+   calls in between, the model's answer is the specified solo result.
    The model is run with the mode confined to the thread (sh = false: the code since 5f67dd0).
 
    A request whose first element is the atom 8 is about the parallel adaptors:
